@@ -31,6 +31,7 @@ def walk_shallow(e):
 class KeyVal(str):
     """value expression text of an inserted key, with the expression AST attached"""
     ast = None
+    fn = None
 
 
 ctxvars = {"context"}   # variables initialised from tera::Context::new() (collected while walking); the conventional name is the seed
@@ -93,14 +94,31 @@ def collect_renders(fn, stmts, inherited, out):
         for e in stmt_exprs(st):
             for x in _ordered(e):
                 if isinstance(x, tuple):
-                    collect_renders(fn, x[1], keys, out)
+                    # a nested scope that builds its own Context keeps it to itself; one that only inserts into the enclosing context
+                    # (`if let Types { structs } = file { context.insert("structs", ..) }`) adds to it
+                    own = any(isinstance(s_, dict) and s_.get("k") == "let" and s_.get("init") is not None and re.search(r"(^|::)Context::(new|default)\(", expr_text(s_["init"])) for s_ in x[1])
+                    if own:
+                        collect_renders(fn, x[1], keys, out)
+                    else:
+                        keys.update(collect_renders(fn, x[1], keys, out))
                     continue
                 if x.get("k") == "mcall" and x["method"] == "insert" and expr_text(x["recv"]) in ctxvars and x["args"] and lit_str(x["args"][0]):
                     kv = KeyVal(expr_text(x["args"][1]) if len(x["args"]) > 1 else "")
                     kv.ast = x["args"][1] if len(x["args"]) > 1 else None
+                    kv.fn = fn          # the function whose locals the value expression speaks about (a Context-returning helper, maybe)
                     keys[lit_str(x["args"][0])] = kv
                 if x.get("k") == "mcall" and x["method"] == "render" and x["args"] and lit_str(x["args"][0]):
                     out.append((fn, lit_str(x["args"][0]), dict(keys)))
+                elif x.get("k") == "mcall" and x["method"] == "render" and x["args"] and x["args"][0].get("k") in ("mcall", "call"):
+                    # the template name looked up by a new private helper (`file.template_name()`: one literal per variant): a render site per name
+                    import srclib as _sl
+                    a0 = x["args"][0]
+                    nm0 = a0["method"] if a0["k"] == "mcall" else expr_text(a0["func"]).split("::")[-1].strip()
+                    h0 = _sl._NEW_HELPERS.get(nm0)
+                    if h0 is not None and h0.body is not None:
+                        from srclib import walk_block as _wb
+                        for tn in sorted({lit_str(y) for y in _wb(h0.body) if lit_str(y) and lit_str(y).endswith(".tera")}):
+                            out.append((fn, tn, dict(keys)))
                 elif x.get("k") in ("mcall", "call") and x.get("args") and x.get("method") != "insert":
                     # a render routed through a private wrapper (`self.render_or_empty("x.tera", label, &context)`): a call that is handed a
                     # template name literal together with the context variable
@@ -173,7 +191,7 @@ class Typing:
             kt = key_types(P, fn)
             for k, v in keys.items():
                 self.key_info.setdefault(k, set()).add((fn.qname, v, kt.get(k, "")))
-                self.key_ast[(fn.qname, k)] = (fn, v.ast)
+                self.key_ast[(fn.qname, k)] = (getattr(v, "fn", None) or fn, v.ast)
             ast = T.ast_of(tpl)
             if ast is not None:
                 self._walk(ast, {}, keys, kt, 0)
